@@ -168,10 +168,23 @@ def body_descr(sel: int) -> bool:
         return fail(f"descriptor {s!r} cannot be read back with patterns {top!r} / {sub!r}: {e}")
     if got != exp:
         return fail(f"descriptor {s!r} reads back as {got}, the chain is {exp}")
-    # the descriptor follows the chain: after an in-place edit of the top-level final state (a public Counter) it shows the new tree
-    root = chain.decays[names[0]].daughters
-    leaf0 = leaves[0][0]
-    edit = (sel // 3) % 4
+    # the descriptor follows the chain: after an in-place edit of any final state (a public Counter) it shows the new tree.
+    # every decaying particle x every edit, each on a freshly built chain
+    for ti in range(k):
+        for edit in range(4):
+            for rendered_before in (True, False):             # C13-m10: a string cached by an earlier rendering
+                chain = DecayChain(names[0], {names[i]: DecayMode(0.5, [n for n, c in given[i].items() for _ in range(c)]) for i in range(k)})
+                if rendered_before:
+                    _render(chain, pats)
+                r = _edit_and_read(chain, names, leaves, ti, edit, pats, top, sub, s)
+                if r is not True:
+                    return r
+    return True
+
+
+def _edit_and_read(chain, names, leaves, ti, edit, pats, top, sub, s):
+    root = chain.decays[names[ti]].daughters
+    leaf0 = leaves[ti][0]
     if edit == 0:
         root.pop(leaf0)
     elif edit == 1:
@@ -192,12 +205,12 @@ def body_descr(sel: int) -> bool:
                 items.append(now(n) if n in chain.decays else n)
         return (m, tuple(sorted(items, key=repr)))
     exp2 = now(names[0])
-    s2 = _render(chain, pats)
+    what = f"{['pop', 'clear+update', 'setdefault', 'popitem'][edit]} on the final state of {names[ti]}"
     try:
+        s2 = _render(chain, pats)
         got2 = _read(s2, top, sub)
     except Exception as e:
-        return fail(f"after {['pop', 'clear+update', 'setdefault', 'popitem'][edit]} on the top-level final state: descriptor {s2!r} cannot be read back: {e}")
+        return fail(f"after {what}: descriptor cannot be rendered / read back: {type(e).__name__}: {e} (before the edit: {s!r})")
     if got2 != exp2:
-        return fail(f"after {['pop', 'clear+update', 'setdefault', 'popitem'][edit]} on the top-level final state the descriptor {s2!r} reads back as "
-                    f"{got2}, the chain is {exp2} (before the edit: {s!r})")
+        return fail(f"after {what} the descriptor {s2!r} reads back as {got2}, the chain is {exp2} (before the edit: {s!r})")
     return True
